@@ -1,9 +1,13 @@
 //! Check registry.
 use crate::fw::CheckDef;
 
+pub mod bk;
+pub mod c01;
+pub mod c02;
+pub mod c03;
 pub mod c07;
 
 pub fn registry() -> &'static [CheckDef] {
-    static R: &[CheckDef] = &[c07::DEF];
+    static R: &[CheckDef] = &[c01::DEF, c02::DEF, c03::DEF, c07::DEF];
     R
 }
